@@ -107,12 +107,18 @@ impl SignalHandler {
         }
       }
     }
+
+    #[cfg(just_verif)]
+    crate::verif::signal_processed(signal);
   }
 
   pub(crate) fn spawn<T>(
     mut command: Command,
     f: impl Fn(process::Child) -> io::Result<T>,
   ) -> (io::Result<T>, Option<Signal>) {
+    #[cfg(just_verif)]
+    crate::verif::before_spawn();
+
     let mut instance = Self::instance();
 
     let child = match command.spawn() {
